@@ -344,3 +344,38 @@ Example C06_nonvacuous_heap :
                                     (fun _ c => Some c) [] 0 hs [PField None 1 [0] [] []] in
   hget (h_heap hs') 0 = (9, VScalar 1) /\ map (read_sel (h_heap hs')) ps' = [Field None 1 [(9, VVar 100)] [] []].
 Proof. vm_compute. split; reflexivity. Qed.
+
+(* ---- constants generated from the source (harness/gen.go writes Gen/Consts.v from
+   plan_cache.go before every check run; these are re-proved then) ---- *)
+From GQL Require Gen.Consts Tables.CacheDefaults.
+
+(* The defaults of NewPlanCache in plan_cache.go are the model's; the linked library reports the
+   same (harness cases carry the linked values as c_defmax / c_defq). *)
+Theorem C06_gen_defaults :
+  Gen.Consts.default_plan_cache_max_entries = Tables.CacheDefaults.model_default_max_entries /\
+  Gen.Consts.default_plan_cache_max_query_bytes = Tables.CacheDefaults.model_default_max_query_bytes /\
+  Gen.Consts.linked_plan_cache_max_entries = Gen.Consts.default_plan_cache_max_entries /\
+  Gen.Consts.linked_plan_cache_max_query_bytes = Gen.Consts.default_plan_cache_max_query_bytes.
+Proof.
+  repeat split;
+  first [ vm_compute; reflexivity
+        | fail 1 "generated-table obligation C06_gen_defaults no longer holds against the regenerated table: defaultPlanCacheMaxEntries / defaultPlanCacheMaxQueryBytes of plan_cache.go (Gen/Consts.v) are not the defaults of the cache model (Tables/CacheDefaults.v)" ].
+Qed.
+Print Assumptions C06_gen_defaults.
+
+(* C06_bound for a cache built without MaxEntries: the bound is the constant of the source, and
+   it is a bound (positive). *)
+Theorem C06_gen_default_bound :
+  forall (R A : Type) hash (fresh : cfg -> req -> R) ok (synth : req -> A) no_synth victim,
+    victim_ok victim ->
+    forall c h, (c_max c <= 0)%Z -> c_defmax c = Gen.Consts.default_plan_cache_max_entries ->
+      nlen (entries (fst (run hash fresh ok synth no_synth victim c h))) <= Gen.Consts.default_plan_cache_max_entries /\
+      0 < Gen.Consts.default_plan_cache_max_entries.
+Proof.
+  intros R A hash fresh ok synth no_synth victim HV c h Hm Hd.
+  split; [|first [ vm_compute; reflexivity
+                 | fail 1 "generated-table obligation C06_gen_default_bound no longer holds against the regenerated table: defaultPlanCacheMaxEntries of plan_cache.go (Gen/Consts.v) is not positive" ]].
+  pose proof (C06_bound R A hash fresh ok synth no_synth victim HV c h) as B.
+  unfold eff_max in B. apply Z.leb_le in Hm. rewrite Hm, Hd in B. exact B.
+Qed.
+Print Assumptions C06_gen_default_bound.
